@@ -209,7 +209,7 @@ class MCSRules(LockModel):
     def analyse(self):
         for key, fn in sorted(self.fns.items()):
             role = self.roles.get(key)
-            if role is None and self.eng.inline_helper(fn):
+            if role is None and self.eng.private_helper(fn):
                 continue      # a helper: analysed in the context of its callers
             res = self.paths(fn)
             paths = res['paths']
